@@ -719,6 +719,73 @@ def real_profiles(chk: Check, pid: str):
     chk.evaluations += n
 
 
+def peak_scale(chk: Check):
+    """C07 (duration <= 48 h rests on it): PeakScale.tla enumerates (monthly peak, window maximum) per direction around the 0.1 kW
+    tolerance; the real find_peak_durations is replayed on every case with the 48 h simulation stubbed to record its arguments."""
+    cfg = ("SPECIFICATION Spec\nCHECK_DEADLOCK FALSE\nCONSTANTS\n Peaks = {0, 500, 1200}\n Excess = {0, 5, 9, 11, 100, 700}\n Tol = 10\n"
+           "INVARIANT TypeOK\nINVARIANT ScaleCoversWindow\nINVARIANT ScaleOwnDirection\nINVARIANT NoSimWithoutLoad\nPROPERTY Terminates\n")
+    res = run_tlc("PeakScale", cfg, want_prints=False)
+    chk.add_tlc(res)
+    if res.violated:
+        chk.violation(f"PeakScale.tla invariant {res.violated} violated", {})
+        return
+    require_tlc_ok(res, "PeakScale")
+    res = run_tlc("PeakScale", cfg.replace("PROPERTY Terminates\n", "INVARIANT Emit\n"), workers=1)
+    require_tlc_ok(res, "PeakScale gen")
+    rows = [p for p in res.prints if p.get("t") == "scale"]
+    if len(rows) != 3 * 3 * 6 * 6:
+        raise MachineryError(f"PeakScale: {len(rows)} cases")
+    import_repo()
+    import ghedesigner.ground_loads as ghl  # noqa: PLC0415
+
+    n = 0
+    real = ghl.HybridLoad.perform_current_month_simulation
+    try:
+        for r in rows:
+            calls = []
+
+            def stub(self, two_day, peak_load, avg_load, pk_list, nm_list, calls=calls):
+                calls.append(("rej" if pk_list is self.two_day_fluid_temps_cl_pk else "ext", peak_load, max(two_day)))
+                return 3.0, None, None
+
+            ghl.HybridLoad.perform_current_month_simulation = stub
+            hl = ghl.HybridLoad.__new__(ghl.HybridLoad)
+            hl.days_in_month = [0, 31]
+            pkc, mxc, pkh, mxh = (r[k] / 100.0 for k in ("pkc", "mxc", "pkh", "mxh"))
+            hl.monthly_peak_cl, hl.monthly_peak_hl = [0, pkc], [0, pkh]
+            hl.monthly_avg_cl, hl.monthly_avg_hl = [0, pkc / 4.0], [0, pkh / 4.0]
+            wc, wh = [0.0] * 48, [0.0] * 48
+            wc[30], wh[31] = pkc, pkh
+            wc[7], wh[9] = max(wc[7], mxc if mxc > pkc else 0.0), max(wh[9], mxh if mxh > pkh else 0.0)
+            hl.two_day_hourly_peak_cl_loads, hl.two_day_hourly_peak_hl_loads = [[0], wc], [[0], wh]
+            hl.two_day_fluid_temps_cl_nm, hl.two_day_fluid_temps_cl_pk = [[0]], [[0]]
+            hl.two_day_fluid_temps_hl_nm, hl.two_day_fluid_temps_hl_pk = [[0]], [[0]]
+            hl.monthly_peak_cl_duration, hl.monthly_peak_hl_duration = [0, 0], [0, 0]
+            hl.find_peak_durations()
+            n += 1
+            got = {d: p for d, p, _ in calls}
+            want = {d: r[k] / 100.0 for d, k in (("rej", "sc"), ("ext", "sh")) if r[k] != 0}
+            where = f"rejection peak {pkc} kW (window max {mxc}), extraction peak {pkh} kW (window max {mxh})"
+            if [d for d, _, _ in calls] != list(r["order"]):
+                chk.violation(f"C07: 48 h simulations run for {[d for d, _, _ in calls]}, PeakScale.tla expects {list(r['order'])}: {where}", r)
+                break
+            for d, p, mx2 in calls:
+                if not (p > mx2 - 0.1 and p in ((pkc, mxc) if d == "rej" else (pkh, mxh))):
+                    chk.violation(f"C07: the {d} two-day profile is scaled by {p} kW, which does not cover its window / is not that direction's peak: {where}", r)
+                    return
+            if got != want:
+                print(f"NOTE: peak scale differs from PeakScale.tla although it covers the window: {got} vs {want}: {where}")
+            for d, durs in (("rej", hl.monthly_peak_cl_duration), ("ext", hl.monthly_peak_hl_duration)):
+                if (r["pkc" if d == "rej" else "pkh"] == 0) != (durs[1] == 1.0e-6):
+                    chk.violation(f"C07: direction {d} duration {durs[1]} h: a month without load in a direction gets the 1e-6 h placeholder and no simulation: {where}", r)
+                    return
+    finally:
+        ghl.HybridLoad.perform_current_month_simulation = real
+    chk.traces += n
+    chk.evaluations += n
+    chk.note("peak_scale_cases_replayed", n)
+
+
 def duration_definition(chk: Check):
     seeds = [chk.seed * 17 + i for i in range(8 if tier() == "quick" else 64)]
     tot = 0
@@ -745,6 +812,7 @@ def run(pid: str) -> int:
         month_helpers(chk)
     if pid == "C07":
         two_day_windows(chk)
+        peak_scale(chk)
         duration_definition(chk)
     real_profiles(chk, pid)
     # is the listed finding F14 still present on the model?  (a violated F14Present means it is)
